@@ -1,12 +1,12 @@
 SPECIFICATION Spec
-CONSTANTS Conns = {1, 2, 3}
-          MaxItems = 12
+CONSTANTS Conns = {1, 2}
+          MaxItems = 5
           Scale = 1
           RecvMax = 6
           MaxFrame = 4
           FragSize = 2
           Units = {0, 1, 3, 5}
-          Role = "server"
+          Role = "client"
           Dir = "in"
 INVARIANTS Bounded NoGhostMessage AccBounded
-ACTION_CONSTRAINT ExportEdge
+VIEW View
